@@ -17,13 +17,15 @@ callback (empty indication -> one read -> every listener told once), close() / s
      against the intended behaviour (Deviations = {}, all invariants) unless the one place where a recorded departure
      changes the model shows in the record (an unsubscribe call / a background task dying of AttributeError / a
      start_notify answered together with the loss of the link) - then against the model with exactly those departures and
-     without the invariants they break.  An execution its model does not accept is a VIOLATION.  Per recorded finding one
-     execution is shown (KNOWN-FINDING): it is not a behaviour of the intended model, and for two of them TLC exhibits the
-     consequence (NotifyExact / NotifyComplete violated in the model with the departure).
+     without the invariants they break, and, if that model does not accept it, with fewer departures down to the intended
+     behaviour (a tree in which a finding has been repaired).  An execution none of them accepts is a VIOLATION.  Per
+     recorded finding one execution is shown (KNOWN-FINDING): it is not a behaviour of the intended model, and for two of
+     them TLC exhibits the consequence (NotifyExact / NotifyComplete violated in the model with the departure).
 """
 from __future__ import annotations
 
 import glob
+import itertools
 import json
 import multiprocessing as mp
 import os
@@ -333,6 +335,11 @@ def _features(rec):
     return ("u" if u else "") + ("c" if c else "") + ("s" if s else "")
 
 
+def _subsets(f):
+    """the sets of departures to try for an execution with features f: all of them first, the intended behaviour last"""
+    return ["".join(c) for n in range(len(f), -1, -1) for c in itertools.combinations(f, n)]
+
+
 def report(ctx, recs, what="execution"):
     """Verdicts for a set of recorded executions."""
     for r in recs:
@@ -341,28 +348,46 @@ def report(ctx, recs, what="execution"):
     usable = [r for r in recs if not r.get("skipped")]
     ctx.notes["executions_skipped_coincident_timers"] = len(recs) - len(usable)
     # every execution is validated against the intended behaviour (Deviations = {}, all invariants) unless a place where a
-    # recorded departure changes the model shows in it: then against the model with exactly those departures (the
-    # invariants they break switched off)
-    groups = {}
-    for r in usable:
-        groups.setdefault(_features(r), []).append(r)
-    jobs = []
-    for f, rs in sorted(groups.items()):
-        k = max(1, (len(rs) + 119) // 120)
-        for i in range(k):
-            jobs.append((f, rs[i::k]))
-    with ThreadPoolExecutor(min(5, max(1, len(jobs)))) as ex:
-        outs = list(ex.map(lambda j: _tlc_traces(ctx, f"BleSubs_Trace_{j[0] or 'intended'}.cfg", j[1],
-                                                 "trace validation: " + (f"model with the recorded departures [{j[0]}]" if j[0]
-                                                                         else "intended behaviour (Deviations = {}), all invariants")), jobs))
-    final = [j for o in outs for j in o]
+    # recorded departure changes the model shows in it: then first against the model with exactly those departures (the
+    # invariants they break switched off); what that model does not accept is tried with fewer departures, down to the
+    # intended behaviour (a tree in which a finding has been repaired).  Accepted = a behaviour of one of these models.
+    pending = {id(r): (r, _subsets(_features(r)), 0) for r in usable}
+    first_rej, accepted = {}, {}
+    while pending:
+        groups = {}
+        for r, subs, k in pending.values():
+            groups.setdefault(subs[k], []).append(r)
+        jobs = []
+        for f, rs in sorted(groups.items()):
+            n = max(1, (len(rs) + 119) // 120)
+            jobs += [(f, rs[i::n]) for i in range(n)]
+        with ThreadPoolExecutor(min(5, len(jobs))) as ex:
+            outs = list(ex.map(lambda j: _tlc_traces(ctx, f"BleSubs_Trace_{j[0] or 'intended'}.cfg", j[1],
+                                                     "trace validation: " + (f"model with the recorded departures [{j[0]}]" if j[0]
+                                                                             else "intended behaviour (Deviations = {}), all invariants")), jobs))
+        rejected = {}
+        for (f, _), o in zip(jobs, outs):
+            for j in o:
+                j["model"] = f
+                rejected[id(j["record"])] = j
+        nxt = {}
+        for key, (r, subs, k) in pending.items():
+            if key not in rejected:
+                accepted.setdefault(subs[k], []).append(r)
+                continue
+            first_rej.setdefault(key, rejected[key])
+            if k + 1 < len(subs) and not rejected[key].get("unvalidated"):
+                nxt[key] = (r, subs, k + 1)
+        pending = nxt
+    acc = {id(r) for rs in accepted.values() for r in rs}
+    final = [j for key, j in first_rej.items() if key not in acc]
     bad = {id(j["record"]) for j in final}
     detailed = 0
     for j in final:
         rec = j["record"]
         if j.get("unvalidated"):
             continue
-        cfg = f"BleSubs_Trace_{_features(rec) or 'intended'}.cfg"
+        cfg = f"BleSubs_Trace_{j['model'] or 'intended'}.cfg"
         if j.get("invariant"):
             msg = f"{what} {rec['id']} drives BleSubs into a state that violates {j['invariant']}"
         else:
@@ -375,7 +400,7 @@ def report(ctx, recs, what="execution"):
                             "schedule": _schedule(rec, j.get("maxl"))})
     with _acct:
         ctx.trace_ok(len(usable) - len(bad))
-    ok = {f: [r for r in rs if id(r) not in bad] for f, rs in groups.items()}
+    ok = accepted
     ctx.notes["executions_validated_per_model"] = {f or "intended": len(rs) for f, rs in sorted(ok.items())}
     # the recorded findings: one execution each, with its consequence (verdict from the specification: the execution is not
     # a behaviour of the intended model, and the model with the departure reaches a state violating the property)
@@ -507,7 +532,7 @@ def run(ctx):
                 k = _kind(e)
                 cnt[k] = cnt.get(k, 0) + 1
         ctx.notes["observed"] = dict(sorted(cnt.items()))
-        missing = EVENT_KINDS - set(cnt)
+        missing = EVENT_KINDS - {"bgfail:attr"} - set(cnt)      # (bgfail:attr only occurs while that finding is unrepaired)
         ctx.notes["loop_exceptions"] = sorted({x for r in recs for x in r.get("loop_exceptions", [])})[:5]
         for r in recs:
             key = json.dumps(r["events"], sort_keys=True)
